@@ -1818,7 +1818,22 @@ Definition call_order_checks : list bool :=
     has "io.LimitReader" limited_Push_calls;
     (* resolver *)
     has "oldTagSet.Delete" resolver_Tag_calls;
-    before "m.lock.Lock" "tagSet.Add" resolver_Tag_calls ].
+    before "m.lock.Lock" "tagSet.Add" resolver_Tag_calls;
+    (* oci.Storage.Push: stat, then ingest into a temp file, then rename onto the blob path *)
+    before "os.Stat" "s.ingest" ocistorage_Push_calls;
+    before "s.ingest" "os.Rename" ocistorage_Push_calls;
+    (* oci.Store.Resolve: the tag map first, the blob fallback second *)
+    before "s.tagResolver.Resolve" "resolveBlob" oci_Resolve_calls;
+    (* file store reads: name status, then digestToPath, then the fallback storage *)
+    before "s.nameExists" "s.digestToPath.Load" file_Fetch_calls;
+    before "s.digestToPath.Load" "os.Open" file_Fetch_calls;
+    before "os.Open" "s.fallbackStorage.Fetch" file_Fetch_calls;
+    before "s.nameExists" "s.digestToPath.Load" file_Exists_calls;
+    before "s.digestToPath.Load" "s.fallbackStorage.Exists" file_Exists_calls;
+    (* restoreDuplicatesFrom: successors, skip existing names, fetch by plain descriptor, push *)
+    before "content.Successors" "s.nameExists" file_restoreFrom_calls;
+    before "s.nameExists" "s.Fetch" file_restoreFrom_calls;
+    before "s.Fetch" "s.push" file_restoreFrom_calls ].
 
 Lemma call_order_from_source : forallb (fun x => x) call_order_checks = true.
 Proof. vm_compute. reflexivity. Qed.
